@@ -147,6 +147,10 @@ func genC20Plan(r *zsim.Rng) *sysPlan {
 				break
 			}
 			ps.Text = "before\n\x1b[2Jafter-clear\nmore\n"
+			if r.Chance(1, 4) {
+				// the screen is cleared twice with text in between and no newline (progress; clear; result)
+				ps.Text = "old1\nold2\n\x1b[2Jloading..\x1b[2Jnew\nmore\n"
+			}
 			ps.DelaysMs = []int{r.Intn(300)}
 			if r.Chance(2, 3) {
 				// the clear code arrives after part of the output was rendered / after the 500 ms mark / repeatedly
